@@ -162,9 +162,6 @@ PlansFor(n, v) ==
 
 \* ValCap > 0 bounds the number of values per type (the heavier plan sets)
 \* (leaf types keep all their boundary values)
-\* k values spread over the (deterministic) enumeration order of the set: the smallest, the largest, and evenly between
-Spread(S, k) == LET q == SetToSeq(S) n == Len(q)
-                IN IF n <= k THEN S ELSE IF k = 1 THEN {q[n]} ELSE {q[1 + ((i * (n - 1)) \div (k - 1))] : i \in 0..(k - 1)}
 ValuesOf(n) == IF TheMod.name = "VB" THEN BigValues(n) ELSE
                LET cap == IF Resolve(RawEnv, TRef(n)).k \in {"SEQUENCE", "SET", "SEQOF", "SETOF"} THEN ValCap ELSE LeafCap
                IN IF cap = 0 THEN Values(RawEnv, TRef(n), Depth) ELSE Spread(Values(RawEnv, TRef(n), Depth), cap)
